@@ -764,14 +764,16 @@ func resolvePlannedField(eCtx *executionContext, parentType *Object, source inte
 	}
 
 	var resolveFnError error
-	result, resolveFnError = resolveFn(ResolveParams{
+	resolveParams := ResolveParams{
 		Source:  source,
 		Args:    args,
 		Info:    info,
 		Context: eCtx.Context,
-	})
-
-	if resolveFieldFinishFn != nil {
+	}
+	if resolveFieldFinishFn == nil {
+		result, resolveFnError = resolveFn(resolveParams)
+	} else {
+		result, resolveFnError = resolveFinishingOnPanic(eCtx, resolveFn, resolveParams, resolveFieldFinishFn)
 		extErrs := resolveFieldFinishFn(result, resolveFnError)
 		if len(extErrs) != 0 {
 			eCtx.Errors = append(eCtx.Errors, extErrs...)
@@ -783,6 +785,26 @@ func resolvePlannedField(eCtx *executionContext, parentType *Object, source inte
 
 	completed := completePlannedValueCatchingError(eCtx, returnType, fp, info, path, result)
 	return completed, true
+}
+
+// resolveFinishingOnPanic calls the resolver on behalf of resolvePlannedField.
+// If the resolver panics, the resolve phase the extensions were told had
+// started is still finished (with the panic as the field's error) before the
+// panic continues to the field's recover.
+func resolveFinishingOnPanic(eCtx *executionContext, resolveFn FieldResolveFn, p ResolveParams, finishFn resolveFieldFinishFuncHandler) (interface{}, error) {
+	defer func() {
+		if r := recover(); r != nil {
+			err, ok := r.(error)
+			if !ok {
+				err = fmt.Errorf("%v", r)
+			}
+			if extErrs := finishFn(nil, err); len(extErrs) != 0 {
+				eCtx.Errors = append(eCtx.Errors, extErrs...)
+			}
+			panic(r)
+		}
+	}()
+	return resolveFn(p)
 }
 
 func completePlannedValueCatchingError(eCtx *executionContext, returnType Type, fp *fieldPlan, info ResolveInfo, path *ResponsePath, result interface{}) (completed interface{}) {
